@@ -267,6 +267,7 @@ public:
         if (dims == _view.dimensions() && _align_in_bytes == alignment)
             return;
 
+        std::size_t const old_alignment = _align_in_bytes;
         _align_in_bytes = alignment;
 
         if (_allocated_bytes >= total_allocated_size_in_bytes(dims))
@@ -286,6 +287,8 @@ public:
         }
         else
         {
+            // the rows stay as they are if the allocation below throws: so does their alignment
+            _align_in_bytes = old_alignment;
             image tmp(dims, alignment);
             swap_all(tmp);
         }
@@ -301,6 +304,7 @@ public:
         if (dims == _view.dimensions() && _align_in_bytes == alignment)
             return;
 
+        std::size_t const old_alignment = _align_in_bytes;
         _align_in_bytes = alignment;
 
         if (_allocated_bytes >= total_allocated_size_in_bytes(dims))
@@ -320,6 +324,8 @@ public:
         }
         else
         {
+            // the rows stay as they are if the allocation below throws: so does their alignment
+            _align_in_bytes = old_alignment;
             image tmp(dims, p_in, alignment);
             swap_all(tmp);
         }
@@ -336,6 +342,7 @@ public:
         if (dims == _view.dimensions() && _align_in_bytes == alignment && alloc_in == _alloc)
             return;
 
+        std::size_t const old_alignment = _align_in_bytes;
         _align_in_bytes = alignment;
 
         if (_allocated_bytes >= total_allocated_size_in_bytes(dims))
@@ -355,6 +362,8 @@ public:
         }
         else
         {
+            // the rows stay as they are if the allocation below throws: so does their alignment
+            _align_in_bytes = old_alignment;
             image tmp(dims, alignment, alloc_in);
             swap_all(tmp);
         }
@@ -370,6 +379,7 @@ public:
         if (dims == _view.dimensions() && _align_in_bytes == alignment && alloc_in == _alloc)
             return;
 
+        std::size_t const old_alignment = _align_in_bytes;
         _align_in_bytes = alignment;
 
         if (_allocated_bytes >= total_allocated_size_in_bytes(dims))
@@ -389,6 +399,8 @@ public:
         }
         else
         {
+            // the rows stay as they are if the allocation below throws: so does their alignment
+            _align_in_bytes = old_alignment;
             image tmp(dims, p_in, alignment, alloc_in);
             swap_all(tmp);
         }
